@@ -98,36 +98,20 @@ func (s *scenario) recEDS(ns, name string, faults map[int]string) {
 		return
 	}
 	in := edsInput(w.cl, ns, name, w.mode)
-	w.wl, w.faults, w.writeCount = &writeLog{}, faults, 0
-	crashed := false
-	var out edsOutJ
-	var nowC int64
-	func() {
-		defer func() {
-			if e := recover(); e != nil {
-				if _, ok := e.(crashSignal); ok {
-					crashed = true
-					return
-				}
-				panic(e)
-			}
-		}()
-		out, nowC = runEdsReconcile(w.edsRec, w.wl, ns, name)
-	}()
+	w.wl, w.faults, w.writeCount, w.faultFired = &writeLog{}, faults, 0, false
+	out, nowC := runEdsReconcile(w.edsRec, w.wl, ns, name)
+	crashed := w.dead
+	w.dead = false
 	w.faults = nil
 	in["now"] = nowC
-	faulted := len(faults) > 0
+	faulted := len(faults) > 0 || w.faultFired
 	in["faulted"] = faulted
 	if crashed {
 		// the process stopped: a fresh controller instance takes over (in-memory state lost)
 		w.freshReconcilers()
 		s.installClock()
-		s.ops = append(s.ops, fmt.Sprintf("recEDS %s/%s CRASH after %d writes", ns, name, w.writeCount))
-		s.countWrites()
-		return
-	}
-	if out.Kind == "panic" {
-		// runEdsReconcile recovered a panic: distinguish our crash signal (already handled above)
+		in["faulted"] = true
+		s.ops = append(s.ops, fmt.Sprintf("recEDS %s/%s: process stopped during this reconcile", ns, name))
 	}
 	if ns == s.ns && name == s.name {
 		s.lastEdsKind = out.Kind
@@ -148,31 +132,18 @@ func (s *scenario) countWrites() {
 func (s *scenario) recERS(ns, edsName, rsName string, faults map[int]string) {
 	w := s.w
 	in := ersInput(w.cl, ns, edsName, rsName, w.aff, w.ersRec)
-	w.wl, w.faults, w.writeCount = &writeLog{}, faults, 0
-	crashed := false
-	var out ersOutJ
-	var nowC int64
-	func() {
-		defer func() {
-			if e := recover(); e != nil {
-				if _, ok := e.(crashSignal); ok {
-					crashed = true
-					return
-				}
-				panic(e)
-			}
-		}()
-		out, nowC = runErsReconcile(w.ersRec, w.cl, w.wl, ns, edsName, rsName)
-	}()
+	w.wl, w.faults, w.writeCount, w.faultFired = &writeLog{}, faults, 0, false
+	out, nowC := runErsReconcile(w.ersRec, w.cl, w.wl, ns, edsName, rsName)
+	crashed := w.dead
+	w.dead = false
 	w.faults = nil
 	in["now"] = nowC
-	in["faulted"] = len(faults) > 0
+	in["faulted"] = len(faults) > 0 || w.faultFired
 	if crashed {
 		w.freshReconcilers()
 		s.installClock()
-		s.ops = append(s.ops, fmt.Sprintf("recERS %s/%s CRASH after %d writes", ns, rsName, w.writeCount))
-		s.countWrites()
-		return
+		in["faulted"] = true
+		s.ops = append(s.ops, fmt.Sprintf("recERS %s/%s: process stopped during this reconcile", ns, rsName))
 	}
 	s.steps = append(s.steps, stepJ{"ers_reconcile", fmt.Sprintf("recERS %s/%s", ns, rsName), in, out})
 	s.ops = append(s.ops, fmt.Sprintf("recERS %s/%s -> %d creates %d deletes", ns, rsName, len(out.Creates), len(out.Deleted)))
